@@ -385,7 +385,7 @@ class World:
             shutil.copytree(copy_of.root, self.root, symlinks=True)  # keeps the mtimes of the files
         else:
             W.build(self.root, tree_of(tree) if isinstance(tree, str) else tree)
-        self.log = []
+        self.log = [x.replace(copy_of.tmp, "$W") for x in copy_of.log] if copy_of is not None else []
         self.exits = []
         self.checked = 0  # runs checked against a non-empty earlier history
         self.same_second = 0
@@ -462,7 +462,7 @@ class World:
             args += ["-sf", ap if sf_spell == "abs" else os.path.relpath(ap, cwd)]
         return args, cwd
 
-    def create(self, target="", spell="abs", fmts=("md5",), extra=(), sf=(), sf_spell="abs", frozen=False):
+    def create(self, target="", spell="abs", fmts=("md5",), extra=(), sf=(), sf_spell="abs"):
         args, cwd = self.args_for(target, spell, fmts, extra, sf, sf_spell)
         return self.invoke(args, cwd)
 
@@ -646,6 +646,9 @@ def script_life(w, nested, fA, fB):
         w.modify(w.pick(0, deepest))
         w.create(target=ns[0], fmts=fA, spell="dot")
     w.create(fmts=fA + fB, spell="rel")
+    # a history that is born late, inside a folder the outer history has already recorded
+    w.create(target="new dir", fmts=fB)
+    w.create(fmts=fA)
 
 
 def script_long(w, nested, fsets, n):
@@ -773,7 +776,7 @@ def script_random(w, nested, rng, length, fsets):
     seal_all(w, nested, fsets[0])
     spells = ["abs", "slash", "rel", "dot", "updown", "elsewhere", "dotslash", "relslash", "inside"]
     for i in range(length):
-        op = rng.choice(["create", "create", "create", "sf", "sf", "nested", "modify", "keep", "add", "delete", "rename", "n", "ignore", "adddir", "symlink"])
+        op = rng.choice(["create", "create", "create", "sf", "sf", "nested", "modify", "keep", "add", "delete", "rename", "n", "ignore", "adddir", "symlink", "newhist"])
         f = rng.choice(fsets)
         fs = w.files()
         if op == "create":
@@ -785,6 +788,10 @@ def script_random(w, nested, rng, length, fsets):
         elif op == "sf" and fs:
             k = rng.choice([1, 1, 2, 3])
             w.create(fmts=f, sf=[rng.choice(fs) for _ in range(k)], sf_spell=rng.choice(["abs", "rel"]), spell=rng.choice(["abs", "slash", "dot"]))
+        elif op == "newhist":
+            ds = sorted({os.path.dirname(x) for x in fs if os.path.dirname(x)} - set(w.nested()))
+            if ds:
+                w.create(target=rng.choice(ds), fmts=f)
         elif op == "nested" and w.nested():
             w.create(target=rng.choice(w.nested()), fmts=f, spell=rng.choice(spells))
         elif op == "modify" and fs:
@@ -990,7 +997,7 @@ def main():
         w.done("frozen", ("frozen", t, ni))
 
     # ---- seeded random sequences
-    nrand = 100 if thorough else 8
+    nrand = 80 if thorough else 8
     for i in range(nrand):
         rng = random.Random(f"{run.seed}/{i}")
         t, ni, nested = worlds[rng.randrange(len(worlds))]
